@@ -337,7 +337,8 @@ def check(case):
                 break
             n_cont += 1
             segs.append((n_before - 1, len(a) - 1, tgt, 1.0 if tgt > cur else -1.0))
-            viols += traj.trajectory_invariants(a, t0, P.y0, segs, np.float64, attrs, check_status=False)
+            # (the continuation monitors no event and reached its target: the status is that of this call, not of the terminal stop)
+            viols += traj.trajectory_invariants(a, t0, P.y0, segs, np.float64, attrs, check_status=True)
             if not viols and case["dense"] and all(s[3] == segs[0][3] for s in segs):
                 viols += traj.dense_consistency(a, P, fam, attrs, what="after continuing past the terminal event")
             if viols:
